@@ -362,6 +362,15 @@ func Generate(seed uint64) *Scenario {
 			}
 		}
 		special = "complete:help"
+	case 4: // sibling commands whose names differ only in case, addressed in yet another case
+		if len(sc.Root.Subs) >= 1 {
+			n := sc.Root.Subs[0].Name
+			if up := strings.ToUpper(n); up != n {
+				twin := genCmd(r, up, copyTaken(taken), 1, reqBias)
+				sc.Root.Subs = append(sc.Root.Subs, twin)
+				special = strings.ToUpper(n[:1]) + n[1:]
+			}
+		}
 	case 3: // a program with a great many options (beyond any "small program" threshold)
 		more := genOpts(r, taken, 40, reqBias)
 		sc.Root.Opts = append(sc.Root.Opts, more...)
@@ -393,6 +402,10 @@ func Generate(seed uint64) *Scenario {
 	}
 	if len(cur.Subs) > 0 && r.Intn(10) == 0 { // `help <topic>`, the topic possibly abbreviated
 		w := cur.Subs[r.Intn(len(cur.Subs))].Name
+		if deeper := grandChildren(cur); len(deeper) > 0 && r.Intn(3) == 0 {
+			// a topic that is not a direct sub-command but exists further down (possibly under several parents)
+			w = deeper[r.Intn(len(deeper))]
+		}
 		sc.Argv = append(sc.Argv, "help", w[:1+r.Intn(len(w))])
 		nargs = 0
 	}
@@ -554,6 +567,17 @@ func Generate(seed uint64) *Scenario {
 	}
 	sc.SelfEmpty = r.Intn(10) == 0
 	return sc
+}
+
+// grandChildren lists the names of the commands two levels below c.
+func grandChildren(c *CmdDef) []string {
+	var out []string
+	for i := range c.Subs {
+		for j := range c.Subs[i].Subs {
+			out = append(out, c.Subs[i].Subs[j].Name)
+		}
+	}
+	return out
 }
 
 func editDistance(a, b string) int {
